@@ -271,6 +271,8 @@ func init() {
 				it.Name = "catching-neighbours/" + it.Name
 				items = append(items, it)
 			}
+			// "its destination is exactly v": the catch value of THIS node, also after a value copy of it was given another
+			items = append(items, Item{Name: "value-copies-of-catching-schemas", MaxDevs: -1, Run: reKey("C05", "C17", c17ValueCopyScenario)})
 			return append(items, Item{Name: "catching-node-behind-preprocess", MaxDevs: -1, Run: c05PreprocessScenario})
 		},
 	})
